@@ -1,7 +1,7 @@
 #!/bin/bash
 # usage: tools/runseed.sh <seed dir with patch.diff> <check ids...>
 # applies the seeded change to /repo, runs the quick checks, always undoes it.
-d=$1; shift
+d=$(realpath $1); shift
 cd /verif
 git -C /repo apply "$d/patch.diff" || { echo "APPLY FAILED"; exit 2; }
 trap 'git -C /repo checkout -- .; git -C /repo status --short' EXIT
